@@ -3,8 +3,9 @@
    Controller on a virtual-time loop.  Logged (t = virtual time in ms when the wrapper fired):
      start / astart   a caller starts async_find (direct on transport tr / aggregate)
      cancel / acancel the caller's task is cancelled (request only; the clean-up is the task's next step)
-     ret / aret       the call ended: "found" (with the discovery of the id asked for), "notfound",
-                      "cancelled"
+     ret / aret       the call ended: "found" (with the discovery of the id asked for; desc = "seen" iff its
+                      description is one the transport produced from a logged advertisement for that id, whose
+                      address / numbers were compared with DiscoveryParse at that event), "notfound", "cancelled"
      adv              the transport's browser / scanner callback processed an advertisement: its abstract
                       class (DiscoveryParse), what the parser produced, whether the callback raised
      end              the driver let all time-outs pass
@@ -42,6 +43,7 @@ TrCancel == IsEvent("cancel") /\ Cancel(Top(E.w)) /\ UNCHANGED rep
 TrRet == /\ IsEvent("ret")
          /\ Resume(Top(E.w))
          /\ wt'[Top(E.w)].res = E.res
+         /\ E.res = "found" => E.desc = "seen"        \* ... with a description produced from an advertisement for it
          /\ UNCHANGED rep
 TrAdv == /\ IsEvent("adv")
          /\ IF E.raised
@@ -54,6 +56,7 @@ TrACancel == IsEvent("acancel") /\ AggCancel(E.g) /\ UNCHANGED rep
 TrARet == /\ IsEvent("aret")
           /\ ag[E.g].pc = "done" /\ E.g \notin rep
           /\ ag[E.g].res = E.res
+          /\ E.res = "found" => E.desc = "seen"
           /\ rep' = rep \cup {E.g}
           /\ UNCHANGED vars
 \* nothing is left to run at this instant
